@@ -322,6 +322,18 @@ def check_json(ctx, spec):
         ctx.violation("dumps-loads-" + d[1], "loads(dumps(x)) differs from x at %s: expected %s got %s" % (
             d[0], _at(exp, normj(z), d[0])[0], _at(exp, normj(z), d[0])[1]))
         return "violation"
+    # the documented formatting options of dumps do not change what is carried
+    try:
+        z2 = cls.loads(x.dumps(indent=2, sort_keys=True))
+    except HARNESS_EXC:
+        raise
+    except Exception as ex:  # noqa
+        ctx.violation("loads-raised", "loads(dumps(x, indent=2, sort_keys=True)) raised %s: %s" % (type(ex).__name__, str(ex)[:200]))
+        return "violation"
+    d = c13.first_diff(exp, normj(z2))
+    if d is not None:
+        ctx.violation("dumps-loads-" + d[1], "loads(dumps(x, indent=2, sort_keys=True)) differs from x at %s" % d[0])
+        return "violation"
     # the text json.dumps produced from toJson must carry the same object as well
     try:
         w = cls.fromJson(json.loads(text))
